@@ -164,6 +164,13 @@ theorem C16_sum (r : RLA Int) (h : r.Valid) : r.sum = r.decode.sum := by
   rw [hd, ← sum_dec]
   rfl
 
+/-- `np.histogram`: the histogram of the run values weighted by the run lengths puts into every bin
+(any predicate `p` on values) exactly the number of decoded cells falling into it -/
+theorem C16_histogram (p : α → Bool) (r : RLA α) : r.weightedCount p = r.decode.countP p := by
+  have hd : r.decode = dec r.events r.values := decode_eq_dec r.events r.values
+  rw [hd, ← weightedCount_dec]
+  rfl
+
 /-- every run is non-empty, so reductions over run values see exactly the values of the cells -/
 theorem C16_values_mem (r : RLA α) (h : r.Valid) (v : α) : v ∈ r.values ↔ v ∈ r.decode := by
   obtain ⟨rest, he⟩ := valid_cons r h
@@ -172,6 +179,22 @@ theorem C16_values_mem (r : RLA α) (h : r.Valid) (v : α) : v ∈ r.values ↔ 
   rw [hd]
   rw [he] at hv ⊢
   exact mem_dec v 0 rest r.values hv.2.2 hv.2.1
+
+/-- `any()` / `all()` are computed on the run values: same answer as on the decoded cells -/
+theorem C16_any (r : RLA α) (h : r.Valid) (p : α → Bool) : r.values.any p = r.decode.any p := by
+  rw [Bool.eq_iff_iff]
+  simp only [List.any_eq_true]
+  exact ⟨fun ⟨x, hx, hp⟩ => ⟨x, (C16_values_mem r h x).1 hx, hp⟩, fun ⟨x, hx, hp⟩ => ⟨x, (C16_values_mem r h x).2 hx, hp⟩⟩
+
+theorem C16_all (r : RLA α) (h : r.Valid) (p : α → Bool) : r.values.all p = r.decode.all p := by
+  rw [Bool.eq_iff_iff]
+  simp only [List.all_eq_true]
+  exact ⟨fun hv x hx => hv x ((C16_values_mem r h x).2 hx), fun hv x hx => hv x ((C16_values_mem r h x).1 hx)⟩
+
+/-- `max()` is the maximum of the run values: an upper bound of the decoded cells that is one of them -/
+theorem C16_max (r : RLA Int) (h : r.Valid) (m : Int) (hm : m ∈ r.values) (hub : ∀ v ∈ r.values, v ≤ m) :
+    m ∈ r.decode ∧ ∀ x ∈ r.decode, x ≤ m :=
+  ⟨(C16_values_mem r h m).1 hm, fun x hx => hub x ((C16_values_mem r h x).2 hx)⟩
 
 set_option linter.unusedVariables false in
 /-- concatenation (`hne` is not needed: the empty concatenation is `⟨[0], []⟩`) -/
